@@ -20,6 +20,7 @@ def plan(tier, seed):
     jobs.append(ch("C14", "vf/pyshim/h_open.py", "h_open_directory", t,
                    ["api.ParquetFile.__init__ (directory without _metadata)", "util.analyse_paths",
                     "api.ParquetFile._set_attrs", "api.paths_to_cats"]))
+    jobs.append(ch("C14", "vf/pyshim/h_open.py", "h_parse_header", t, ["api.ParquetFile._parse_header"]))
     # partition columns inferred from directory names: levels whose label texts overlap, with and without metadata
     jobs.append(ch("C14", "vf/pyshim/h_c08.py", "h_hive_two_levels", t,
                    ["api.paths_to_cats", "api._path_to_cats", "util._strip_path_tail", "util.val_to_num",
